@@ -187,11 +187,14 @@ def harnesses(tier):
     bounds = {'--id': 'given or not', '--sources': 'absent / --sources= (unset) / empty ("" or bare flag) / id(+suffix) / explicit address with symbolic port',
               '--outputs': 'absent / unset / empty / explicit symbolic port / default port / ipc / file', 'suffixes': SUFFIXES[:5] if q else SUFFIXES, '--ipc': 'on/off',
               'ports': 'symbolic Int in [1024,65000]'}
-    hs = [Harness('c12.parse_filters.full', mk_scenario(2 if q else 3, suffixes=SUFFIXES[:5] if q else SUFFIXES, classes=['VideoIn', 'Util', 'VideoOut'] if q else CLASSES), twin=mk_scenario(2, planted=True),
-                  bounds={'filters': '1-2' if q else '1-3', 'classes': ['VideoIn', 'Util', 'VideoOut'] if q else CLASSES, **bounds}, functions=fn, stubs=stubs, assumptions=assume, budget_s=900 if q else 3000),
-          Harness('c12.parse_filters.chain', mk_scenario(3 if q else 4, nmin=3 if q else 4, suffixes=SUFFIXES[:2] if q else SUFFIXES[:3], with_ipc=not q, fixed_classes=['VideoIn', 'Util', 'Filter', 'VideoOut'] if not q else ['VideoIn', 'Util', 'VideoOut']),
-                  bounds={'filters': 3 if q else 4, 'classes': 'VideoIn, Util, (Filter,) VideoOut in this order', **bounds}, functions=fn, stubs=stubs, assumptions=assume,
+    hs = [Harness('c12.parse_filters.full', mk_scenario(2, suffixes=SUFFIXES[:5] if q else SUFFIXES, classes=['VideoIn', 'Util', 'VideoOut'] if q else CLASSES), twin=mk_scenario(2, planted=True),
+                  bounds={'filters': '1-2', 'classes': ['VideoIn', 'Util', 'VideoOut'] if q else CLASSES, **bounds}, functions=fn, stubs=stubs, assumptions=assume, budget_s=900 if q else 3000),
+          Harness('c12.parse_filters.chain', mk_scenario(3, nmin=3, suffixes=SUFFIXES[:2] if q else SUFFIXES[:4], with_ipc=not q, fixed_classes=['VideoIn', 'Util', 'VideoOut']),
+                  bounds={'filters': 3, 'classes': 'VideoIn, Util, VideoOut in this order', **bounds}, functions=fn, stubs=stubs, assumptions=assume,
                   budget_s=900 if q else 3000)]
+    if not q:
+        hs.append(Harness('c12.parse_filters.chain4', mk_scenario(4, nmin=4, suffixes=SUFFIXES[:1], with_ipc=False, fixed_classes=['VideoIn', 'Util', 'Filter', 'VideoOut']),
+                          bounds={'filters': 4, 'classes': 'VideoIn, Util, Filter, VideoOut', **bounds, 'suffixes': [''], '--ipc': 'off'}, functions=fn, stubs=stubs, assumptions=assume, budget_s=3000))
     return hs
 
 
